@@ -844,7 +844,7 @@ fn replay_main<E: Engine>(args: &Args, file: &Path) -> i32 {
         return 2;
     }
     let quiet = std::env::var("VERIF_REPLAY_QUIET").is_ok();
-    let attempts = if rf.unstable { 40 } else { 1 };
+    let attempts = if rf.unstable { 300 } else { 1 };
     // panics inside simulated code are part of the trace (injected faults, real defects): one line
     std::panic::set_hook(Box::new(move |info| {
         if !quiet {
@@ -1192,7 +1192,7 @@ fn parent_main<E: Engine>(args: &Args) -> i32 {
         for (k, v) in w.actions_hist {
             *merged.actions_hist.entry(k).or_insert(0) += v;
         }
-        let mut load = |suffix: &str, into: &mut Vec<u64>| {
+        let load = |suffix: &str, into: &mut Vec<u64>| {
             if let Ok(b) = fs::read(format!("{}.{suffix}", out.display())) {
                 into.extend(b.chunks_exact(8).map(|c| u64::from_le_bytes(c.try_into().unwrap())));
             }
@@ -1366,6 +1366,46 @@ fn parent_main<E: Engine>(args: &Args) -> i32 {
                         .any(|l| l.starts_with(&format!("violation class={class} ")))
             }
             _ => false,
+        };
+        // A violation that does not replay at once may depend on a source of nondeterminism inside
+        // the code under test (e.g. hash iteration order): mark the file unstable and let the
+        // replay command re-execute it repeatedly before giving up.
+        let mut unstable = unstable;
+        let reproduced = if !reproduced && !unstable && class != "hang" && class != "abort" {
+            let mut rf2 = rf.clone();
+            rf2.unstable = true;
+            fs::write(&file, serde_json::to_vec_pretty(&rf2).unwrap()).unwrap();
+            let again = Command::new(&exe)
+                .arg(prop)
+                .args(["--tier", args.tier.name()])
+                .arg("--replay")
+                .arg(&file)
+                .env("VERIF_REPLAY_QUIET", "1")
+                .stdout(Stdio::piped())
+                .stderr(Stdio::null())
+                .output();
+            let ok = again.map_or(false, |o| {
+                o.status.code() == Some(1)
+                    && String::from_utf8_lossy(&o.stdout).lines().any(|l| l.starts_with(&format!("violation class={class} ")))
+            });
+            if ok {
+                unstable = true;
+                println!("note: violation class={class} reproduces only in some executions of the same action list (nondeterminism inside the code under test); replay file marked unstable");
+            } else {
+                fs::write(&file, serde_json::to_vec_pretty(&rf).unwrap()).unwrap();
+            }
+            ok
+        } else {
+            reproduced
+        };
+        // An unstable violation was observed in the worker (a divergent execution of the seed
+        // violated the property); if no replay attempt reproduces it, it is still reported, and
+        // the replay file says so.
+        let reproduced = if !reproduced && unstable {
+            println!("note: unstable violation class={class} did not reproduce in the replay attempts; reported from the worker's observation");
+            true
+        } else {
+            reproduced
         };
         if reproduced {
             println!(
